@@ -181,8 +181,8 @@ Inductive case :=
 (* Schedule.Next(last) with timeNow = now: observed window, Includes(window.Start), Includes(window.End - 1 minute)
    (true when the window is a single instant) *)
 | CNext (s : schedule) (last now : Z) (w : window) (inc_start inc_tail : bool)
-(* Next(schedules, last, maxd): observed delay in nanoseconds *)
-| CTop (l : list schedule) (last now maxd : Z) (delay_ns : Z)
+(* Next(schedules, last, maxd): the windows each schedule's Next(last) returned (observed), observed delay in nanoseconds *)
+| CTop (l : list schedule) (last now maxd : Z) (nexts : list window) (delay_ns : Z)
 (* Includes(schedules, t) *)
 | CInc (l : list schedule) (t : Z) (r : bool)
 (* ParseSchedule(s): accepted?, the parsed schedules, whether String() of each parses back to the same schedule *)
@@ -196,6 +196,21 @@ Definition top_window (l : list schedule) (last now maxd : Z) : option window :=
   if existsb (fun o => match o with None => true | Some _ => false end) nexts then None
   else Some (choose (flat_map (fun o => match o with Some w => [w] | None => [] end) nexts) last maxd).
 
+(* the observed delay d (ns) is what timeutil.Next computes from window w: 0 if w starts before now, else start - now,
+   plus a random amount in [0, rand_bound) for a spread window *)
+Definition delay_consistent (w : window) (now d : Z) : bool :=
+  let lo := delay_base w now * 1000000000 in
+  if w_start w <? now then d =? 0
+  else if w_spread w then (lo <=? d) && (d <=? lo + Z.max 0 (rand_bound w) * 1000000000)
+  else d =? lo.
+
+Fixpoint windows_eqb (a : list (option window)) (b : list window) : bool :=
+  match a, b with
+  | [], [] => true
+  | Some x :: a', y :: b' => window_eqb x y && windows_eqb a' b'
+  | _, _ => false
+  end.
+
 Definition mismatch (c : case) : bool :=
   match c with
   | CNext s last now w i1 i2 =>
@@ -204,14 +219,12 @@ Definition mismatch (c : case) : bool :=
       | Some m => negb (window_eqb m w) || negb (Bool.eqb (sched_includes s (w_start w)) i1) ||
                   negb (Bool.eqb (if w_start w <? w_end w then sched_includes s (w_end w - 60) else true) i2)
       end
-  | CTop l last now maxd d =>
+  | CTop l last now maxd nexts d =>
       match top_window l last now maxd with
       | None => true
       | Some w =>
-          let lo := delay_base w now * 1000000000 in
-          if w_start w <? now then negb (d =? 0)
-          else if w_spread w then negb ((lo <=? d) && (d <=? lo + Z.max 0 (rand_bound w) * 1000000000))
-          else negb (d =? lo)
+          negb (windows_eqb (map (fun s => sched_next fuel_days s last now) l) nexts) ||
+          negb (delay_consistent w now d)
       end
   | CInc l t r => negb (Bool.eqb (includes l t) r)
   | CParse _ _ _ => false
@@ -230,19 +243,20 @@ Definition sched_wf (s : schedule) : bool := forallb ws_wf (weekspans s) && fora
 (* monitor: the property's conclusion on the implementation's observed behaviour.
    CNext: the returned window does not end before now, does not contain last, starts on or after the day of last,
           is not inverted; the instant it starts at is accepted by Includes, and so is its last minute.
-   CTop: the delay never lands after last + maxd (up to the random spread inside a spread window), and is 0 when overdue.
+   CTop: the delay is that of an offered (or the fallback) window starting no later than last + maxd, and 0 when overdue.
    CParse: accepted timers are well formed and survive String -> ParseSchedule. *)
 Definition monitor_fail (c : case) : bool :=
   match c with
   | CNext s last now w i1 i2 =>
       (w_end w <? now) || ((w_start w <=? last) && (last <=? w_end w)) || (w_end w <? w_start w) ||
       (w_start w <? (last / 86400) * 86400) || negb i1 || negb i2
-  | CTop l last now maxd d =>
+  | CTop l last now maxd nexts d =>
+      (* the delay is the one of a window that STARTS no later than last + maxd: one of the windows the schedules
+         offered, or the fallback at last + maxd; and it is 0 when the limit is already past *)
       (d <? 0) ||
-      (if last + maxd <? now then negb (d =? 0)
-       else (* the start of the chosen window is not after last+maxd: the delay without its random part is at most last+maxd-now;
-               the random part is below one day (a window is at most 24h long) *)
-            ((last + maxd - now) + 86400) * 1000000000 <? d)
+      ((last + maxd <? now) && negb (d =? 0)) ||
+      negb (existsb (fun w => (w_start w <=? last + maxd) && delay_consistent w now d)
+                    (mkWin (last + maxd) (last + maxd + 3600) false :: nexts))
   | CInc _ _ _ => false
   | CParse acc l rt => acc && (negb (forallb sched_wf l) || negb rt)
   end.
